@@ -423,6 +423,60 @@ func Run(cs Case, c *vrt.Ctx) {
 			c.Fail("first-not-first", "First", fmt.Sprintf("%s: First=%s but Get=%v", desc, fc, gs), ftags...)
 		}
 	}
+	// C11-K2: Locate and Walk read a negative-step slice with Slice.startEndStep, which moves a
+	// start at or beyond the end to the last element where Get selects nothing (pinned by
+	// jp/locate_test.go). Attributed only when that reading gives exactly what they report.
+	var lastElem []string
+	lastElemRead := false
+	if res.Feat["slice-negstep-start-beyond"] {
+		alt := jpx.EvalSliceHook(cs.Path, data, func(arr []any, s []int) ([]int, bool) {
+			start, end, step, size := 0, jpx.MaxEnd, 1, len(arr)
+			if len(s) > 0 {
+				start = s[0]
+			}
+			if len(s) > 1 {
+				end = s[1]
+			}
+			if len(s) > 2 {
+				step = s[2]
+			}
+			if step >= 0 {
+				return nil, false
+			}
+			if start < 0 {
+				if start += size; start < 0 {
+					start = 0
+				}
+			}
+			if end < 0 {
+				end += size
+			}
+			if size <= start {
+				if size == 0 {
+					return nil, true
+				}
+				start = size - 1
+			}
+			if size < end {
+				end = size
+			}
+			if end < -1 {
+				end = -1
+			}
+			var idx []int
+			for i := start; end < i; i += step {
+				idx = append(idx, i)
+			}
+			return idx, true
+		})
+		lastElem, lastElemRead = canonList(valuesOf(alt.Locs)), true
+	}
+	k2 := func(vals []string) []string {
+		if lastElemRead && sameMultiset(vals, lastElem) {
+			return append(append([]string(nil), tags...), "explained-by-start-at-last-element")
+		}
+		return tags
+	}
 	// Locate
 	var locs []jp.Expr
 	if check("Locate", func() { locs = x.Locate(in, 0) }) {
@@ -447,7 +501,7 @@ func Run(cs Case, c *vrt.Ctx) {
 			vals = append(vals, canon.String(one[0], canon.Value))
 		}
 		if !bad && !sameMultiset(vals, gs) {
-			c.Fail("locate-differs", "Locate", fmt.Sprintf("%s: located %v -> %v but Get=%v", desc, exprs(locs), vals, gs), tags...)
+			c.Fail("locate-differs", "Locate", fmt.Sprintf("%s: located %v -> %v but Get=%v", desc, exprs(locs), vals, gs), k2(vals)...)
 		}
 		if !bad && cs.Max > 0 {
 			var some []jp.Expr
@@ -480,7 +534,7 @@ func Run(cs Case, c *vrt.Ctx) {
 		})
 	}) {
 		if !sameMultiset(wvals, gs) {
-			c.Fail("walk-differs", "Walk", fmt.Sprintf("%s: walked %v -> %v but Get=%v", desc, wpaths, wvals, gs), tags...)
+			c.Fail("walk-differs", "Walk", fmt.Sprintf("%s: walked %v -> %v but Get=%v", desc, wpaths, wvals, gs), k2(wvals)...)
 		} else {
 			lp := exprs(locs)
 			// Locate prefixes $ only when the expression starts with Root; Walk never does
@@ -684,6 +738,6 @@ var classifiers = []vrt.Classifier{
 	// Walk start at the last element while Get selects nothing; jp/locate_test.go pins Locate's
 	// answer ("a[5:0:-1]" on 4 elements -> a[3] a[2] a[1]).
 	{ID: "C11-K2", Match: func(d vrt.Disc, c *vrt.Ctx) bool {
-		return has(d, "slice-negstep-start-beyond") && (d.Where == "Locate" || d.Where == "Walk")
+		return has(d, "slice-negstep-start-beyond") && has(d, "explained-by-start-at-last-element") && (d.Where == "Locate" || d.Where == "Walk")
 	}},
 }
